@@ -410,6 +410,32 @@ def directed_ops(u, rnd):
                 if x.wbs is not None and x.wbs is not t.wbs:
                     hier_calls(ut, U(x), 'cross-wbs')
                     add('cross-wbs', ['chAppend', m + u.wbs.index(t.wbs), U(x), 'fresh'])
+    # well-formed list edits (move with anchor, sort, reorder, insert) and, after them, calls through a façade taken earlier
+    for h in list(range(m)) + [m + i for i in range(len(u.wbs))]:
+        ks = [U(c) for c in (u.wbs[h - m].roots if h >= m else u.objs[h].children)]
+        if len(ks) >= 2:
+            t = rnd.choice(ks)
+            anchor = rnd.choice([k for k in ks if k != t])
+            for st in ('fresh', 'stale'):
+                add('valid-list-edit', ['chMove', h, [t], anchor, None, True, st])
+                add('valid-list-edit', ['chMove', h, [t], None, anchor, True, st])
+                add('valid-list-edit', ['chSort', h, None, rnd.random() < 0.5, rnd.choice(['prio', 'id']), st])
+                add('valid-list-edit', ['chReorder', h, [u.obj(k).id for k in rnd.sample(ks, rnd.randrange(1, len(ks) + 1))], st])
+            two = rnd.sample(ks, 2)
+            rest = [k for k in ks if k not in two]
+            if rest:
+                add('valid-list-edit', ['chMove', h, two, rnd.choice(rest), None, False, 'fresh'])
+        if h in u.facades and ks:
+            free = [U(x) for x in T if x.wbs is None and _rawp(x) is None and x is not u.obj(h)]
+            add('stale-facade-call', ['chRemove', h, rnd.choice(ks), 'stale'])
+            if free:
+                add('stale-facade-call', ['chInsert', h, rnd.randrange(0, len(ks) + 1), rnd.choice(free), 'stale'])
+                add('stale-facade-call', ['chAppend', h, rnd.choice(free), 'stale'])
+            if len(ks) >= 2:
+                t = rnd.choice(ks)
+                add('stale-facade-call', ['chMove', h, [t], rnd.choice([k for k in ks if k != t]), None, True, 'stale'])
+                add('stale-facade-call', ['chReorder', h, [u.obj(ks[-1]).id], 'stale'])
+                add('stale-facade-call', ['chSort', h, None, False, 'prio', 'stale'])
     if not pats:
         return None
     name = rnd.choice(sorted(pats))
